@@ -180,7 +180,7 @@ class Runtime:
         self.trace = []
         self.gates = {}        # gid(tuple) -> dict(fut=..., kind=..., payload=...)
         self.gate_order = []   # creation order
-        self.calls = {}        # node index -> list of canonical kwargs of previous calls (this run)
+        self.calls = {}        # node index -> last invocation (arguments, attempt index, raised?) of this run
         self.counters = {}
         self.run_tag = 0
 
@@ -220,10 +220,12 @@ def materialize(spec, rt_holder, tag=''):
     rec_starts = {mk[1] for nd in nodes for _, mk in nd['params'] if mk[0] == 'rec'}
 
     def outcome(i, nd, kwargs, rt):
+        # attempt index within one execution: the number of immediately preceding invocations of this node with the
+        # same arguments that raised (a success, other arguments or a get_default call start a new execution)
         ck = canon_kwargs(kwargs)
-        prev = rt.calls.setdefault(i, [])
-        a = sum(1 for p in prev if p == ck)
-        prev.append(ck)
+        prev = rt.calls.get(i)
+        a = prev['a'] + 1 if prev and prev['ck'] == ck and prev['raised'] else 0
+        rt.calls[i] = dict(ck=ck, a=a, raised=False)
         return a, ck
 
     def compute(i, nd, kwargs, a, self):
@@ -232,6 +234,8 @@ def materialize(spec, rt_holder, tag=''):
             cls = fails[min(a, len(fails) - 1)]
             if cls is not None:
                 rt_holder[0].trace.append(['raise', i, cls])
+                if rt_holder[0].calls.get(i):
+                    rt_holder[0].calls[i]['raised'] = True
                 raise make_exc(cls, i, a)
         b = nd['beh']
         if b == 'none':
@@ -269,6 +273,7 @@ def materialize(spec, rt_holder, tag=''):
 
             def get_default(self, **kwargs):
                 rt = rt_holder[0]
+                rt.calls.pop(i, None)
                 rt.trace.append(['default', i, canon_kwargs(kwargs)])
                 return ('d', i, tuple(sorted((canon_key(k), v) for k, v in kwargs.items())))
 
